@@ -3,10 +3,13 @@
 spec/Resolver.tla (declarative typing; the multi-pass inference of internal/resolver as a state machine over
 every body order Go's map iteration and the topological walk can yield; run-time model of accepted programs),
 spec/ResolverGen.tla (program universes), MC_Resolver (Exact / Sound / PassBound / order independence),
-Gen_Resolver (programs exported with verdict, types, indexes and predicted output),
+Gen_Resolver (programs exported with verdict, types, indexes and predicted output; family "frames": one function of
+3-4 parameters called -- from the main body twice, and recursively -- with fewer arguments than parameters, the
+omitted ones being every mix of scalars and local arrays),
 Trace_Resolver (resolutions of richer random programs recorded from the real parser, validated by TLC).
 """
 import copy, os
+from vlib import MachineryError
 
 
 def corrupt(case, rnd):
@@ -32,7 +35,8 @@ def corrupt_event(ev, rnd):
     return None
 
 
-USAGE = dict(NP1=1, NP2=1, NP3=9, NG=2, MaxMainCalls=1, AllowRev='FALSE', MinArgs=1, NFm=3, Family='"usage"')
+USAGE = dict(NP1=1, NP2=1, NP3=9, NG=2, MaxMainCalls=1, AllowRev='FALSE', MinArgs=1, NFm=3, NPf=3, FrLen='FALSE',
+             Family='"usage"')
 
 
 def consts(**kw):
@@ -46,11 +50,14 @@ def run(ctx):
     os.environ['_JAVA_OPTIONS'] = f'-XX:ParallelGCThreads={max(2, min(ctx.cores, 8))}'
     ctx.rule = ('a case is one abstract program (functions with parameters, a main body over globals; statements: scalar '
                 'use, array use, length(v), call with variable/constant arguments, possibly fewer than parameters, incl. '
-                'recursion) exported by TLC from Gen_Resolver with the declarative verdict, types and predicted output, and '
+                'recursion; family "frames": a function of 3-4 parameters called twice from the main body and recursively with '
+                'fewer arguments than parameters, every mix of omitted scalars and omitted local arrays) '
+                'exported by TLC from Gen_Resolver with the declarative verdict, types and predicted output, and '
                 'rendered in every definition order (functions permuted, BEGIN first/last) and under three naming schemes '
                 '(plain, name order reversed, parameters shadowing globals), each parsed 4-16 times; or one resolution of a '
                 'random richer program recorded from the real parser; distinct by content; non-trivial when a variable is '
-                'passed as an argument or a constant is passed (the propagation mechanism is exercised)')
+                'passed as an argument or a constant is passed (the propagation mechanism is exercised) or a call leaves '
+                'parameters without argument (the callee frame is exercised)')
     ctx.assumptions += [
         'programs inside the statement\'s precondition only (calls name defined functions, no more arguments than '
         'parameters, no name used both as function and variable)',
@@ -59,31 +66,54 @@ def run(ctx):
         'statement\'s place); length(v) carries no evidence; split(), getline targets and native-function arguments are '
         'not generated',
         'calls made inside functions are guarded by a depth limit of 2 in the generated text and in the run-time model',
+        'run-time model of accepted programs: values are counters (a scalar is a string of that many characters, an array '
+        'has that many elements); the constant passed as argument number j is a string of j characters; a parameter '
+        'without argument is uninitialised (scalar) or a fresh empty array on every call, recursive calls and the second '
+        'of two identical calls included; arrays are shared with the caller, scalars are copied',
         'error messages and positions are not compared here (C19 compares them across repeated parses)',
     ]
     ctx.build()
-    # 1. the model: every program of the universe x every body order
-    mc = ctx.cfg('MC_Resolver', name='MC_Resolver_ex',
-                 constants=consts(NG=1 if q else 2, MapOrder='"any"'))
-    ctx.tlc('MC_Resolver', mc, timeout=1500, heap='8g')
-    if not q:   # two parameters, fewer arguments than parameters, both functions calling either
-        mc2 = ctx.cfg('MC_Resolver', name='MC_Resolver_mid', constants=consts(NP1=2, NP2=1, NG=1, MapOrder='"any"'))
-        ctx.tlc('MC_Resolver', mc2, timeout=3000, heap='10g')
     big = consts(NP1=2, NP2=2, NP3=1, NG=2, MaxMainCalls=2, AllowRev='TRUE', MinArgs=0)
-    mcs = ctx.cfg('MC_Resolver', name='MC_Resolver_sim', constants=dict(big, MapOrder='"any"'))
-    ctx.tlc('MC_Resolver', mcs, simulate=(500 if q else 5000), depth=400, workers=min(4, ctx.cores), timeout=1500)
+    frames = consts(Family='"frames"', NPf=3, FrLen='FALSE' if q else 'TRUE')
+    if os.environ.get('VERIF_SKIP_MODEL'):      # development aid for runs against changed code: the model does not depend on the code
+        ctx.notes.append('model run skipped (VERIF_SKIP_MODEL)')
+    else:
+        # 1. the model: every program of the universe x every body order
+        mc = ctx.cfg('MC_Resolver', name='MC_Resolver_ex',
+                     constants=consts(NG=1 if q else 2, MapOrder='"any"'))
+        ctx.tlc('MC_Resolver', mc, timeout=1500, heap='8g')
+        if not q:   # two parameters, fewer arguments than parameters, both functions calling either
+            mc2 = ctx.cfg('MC_Resolver', name='MC_Resolver_mid', constants=consts(NP1=2, NP2=1, NG=1, MapOrder='"any"'))
+            ctx.tlc('MC_Resolver', mc2, timeout=3000, heap='10g')
+        mcs = ctx.cfg('MC_Resolver', name='MC_Resolver_sim', constants=dict(big, MapOrder='"any"'))
+        ctx.tlc('MC_Resolver', mcs, simulate=(400 if q else 5000), depth=400, workers=min(4, ctx.cores), timeout=1500)
+        # the inference on the programs of the "frames" family (three/four parameters, recursion with fewer arguments)
+        mcf = ctx.cfg('MC_Resolver', name='MC_Resolver_frames', constants=dict(frames, MapOrder='"any"'))
+        if q:
+            ctx.tlc('MC_Resolver', mcf, simulate=150, depth=400, workers=min(4, ctx.cores), timeout=1500)
+        else:
+            ctx.tlc('MC_Resolver', mcf, timeout=3000, heap='10g')
     # 2. spec -> code
     gen = ctx.cfg('Gen_Resolver', name='Gen_Resolver_ex', constants=consts())
     ctx.tlc('Gen_Resolver', gen, capture='cases.ndjson', timeout=1500, heap='8g')
     gsim = ctx.cfg('Gen_Resolver', name='Gen_Resolver_sim', constants=big)
     ctx.tlc('Gen_Resolver', gsim, capture='cases.ndjson', simulate=(600 if q else 15000), depth=40,
             workers=min(4, ctx.cores), timeout=1500)
+    # calls with fewer arguments than parameters, every mix of omitted scalars and omitted local arrays, recursion
+    gfr = ctx.cfg('Gen_Resolver', name='Gen_Resolver_frames', constants=frames)
+    ctx.tlc('Gen_Resolver', gfr, capture='cases.ndjson', timeout=3000, heap='8g')
     if not q:
         mid = consts(NP1=2, NP2=1, NG=1, MinArgs=1)
         g2 = ctx.cfg('Gen_Resolver', name='Gen_Resolver_mid', constants=mid)
         ctx.tlc('Gen_Resolver', g2, capture='cases.ndjson', timeout=3000, heap='8g')
+        gf4 = ctx.cfg('Gen_Resolver', name='Gen_Resolver_frames4', constants=dict(frames, NPf=4))
+        ctx.tlc('Gen_Resolver', gf4, capture='cases.ndjson', simulate=5000, depth=20, workers=min(4, ctx.cores), timeout=1500)
     ctx.cov['exhaustive'] = True
     ctx.replay('cases.ndjson', label='gen-resolver', min_cases=1000, corrupt=corrupt)
+    nfr = sum(1 for line in open(ctx.path('cases.ndjson')) if '"fam":"frames"' in line and '"omitted":["' in line)
+    ctx.cov['frames_cases_with_omitted_parameters'] = nfr
+    if nfr < 100:
+        raise MachineryError(f'only {nfr} accepted programs of the "frames" family were exported')
     # 3. code -> spec
     ntr = 150 if q else 1500
     ctx.harness(['C16', 'record', '-seed', str(ctx.seed), '-n', str(ntr), '-out', ctx.path('trace.ndjson')])
